@@ -48,7 +48,8 @@ struct Stats {
     evaluations: u64,
     cases: u64,
     nontrivial_fps: HashSet<u64>,
-    extra_nontrivial: u64,
+    /// C13: per distinct workload (fingerprint) the number of single-fault runs that fired
+    extra_by_case: std::collections::HashMap<u64, u64>,
     signatures: HashSet<u64>,
     faults: Vec<u64>,
     probes: Vec<u64>,
@@ -72,14 +73,19 @@ impl Stats {
         self.cases += 1;
         self.ticks += ev.ticks;
         if ev.nontrivial {
-            self.nontrivial_fps.insert(case.fingerprint());
+            // (C13: the single-fault runs of a workload count as distinct only the first time
+            // that workload is seen)
+            let fp = case.fingerprint();
+            self.nontrivial_fps.insert(fp);
+            if ev.extra_nontrivial > 0 {
+                self.extra_by_case.entry(fp).or_insert(ev.extra_nontrivial);
+            }
             if self.samples.len() < 3 || index < self.samples.last().unwrap().0 {
                 self.samples.push((index, case.clone()));
                 self.samples.sort_by_key(|s| s.0);
                 self.samples.truncate(3);
             }
         }
-        self.extra_nontrivial += ev.extra_nontrivial;
         self.signatures.insert(ev.signature);
         for i in 0..N_FAULT_KINDS {
             self.faults[i] += ev.faults[i] as u64;
@@ -102,7 +108,9 @@ impl Stats {
         self.cases += other.cases;
         self.ticks += other.ticks;
         self.nontrivial_fps.extend(other.nontrivial_fps);
-        self.extra_nontrivial += other.extra_nontrivial;
+        for (k, v) in other.extra_by_case {
+            self.extra_by_case.entry(k).or_insert(v);
+        }
         self.signatures.extend(other.signatures);
         for i in 0..N_FAULT_KINDS {
             self.faults[i] += other.faults[i];
@@ -524,7 +532,7 @@ fn evidence_json(
 ) -> J {
     let prop = opts.prop;
     let distinct = if prop == Prop::C13 {
-        stats.extra_nontrivial
+        stats.extra_by_case.values().sum::<u64>()
     } else {
         stats.nontrivial_fps.len() as u64
     };
